@@ -447,7 +447,7 @@ impl<'tcx> Cx<'tcx> {
             pj.push(e);
             pty = pty.projection_ty(tcx, elem);
         }
-        obj! {"l" => n(p.local.index()), "pj" => J::A(pj)}
+        obj! {"l" => n(p.local.index()), "pj" => J::A(pj), "ty" => s(self.ty_s(pty.ty))}
     }
 
     fn op_j(&self, body: &mir::Body<'tcx>, o: &Operand<'tcx>, owner: DefId) -> J {
@@ -486,7 +486,21 @@ impl<'tcx> Cx<'tcx> {
                 obj! {"k" => s("bin"), "op" => s(format!("{op:?}")), "a" => self.op_j(body, &ab.0, owner), "b" => self.op_j(body, &ab.1, owner)}
             }
             Rvalue::UnaryOp(op, o) => obj! {"k" => s("un"), "op" => s(format!("{op:?}")), "o" => self.op_j(body, o, owner)},
-            Rvalue::Discriminant(p) => obj! {"k" => s("discr"), "p" => self.place_j(body, p)},
+            Rvalue::Discriminant(p) => {
+                let mut j = obj! {"k" => s("discr"), "p" => self.place_j(body, p)};
+                let pty = p.ty(&body.local_decls, tcx).ty;
+                if let ty::Adt(def, _) = pty.kind() {
+                    j.push("adt", s(self.key(def.did())));
+                    if def.is_enum() {
+                        let vs: Vec<J> = def
+                            .discriminants(tcx)
+                            .map(|(vi, d)| J::A(vec![s(def.variant(vi).name.to_string()), J::S(format!("{}", d.val)), n(def.variant(vi).fields.len())]))
+                            .collect();
+                        j.push("variants", J::A(vs));
+                    }
+                }
+                j
+            }
             Rvalue::Aggregate(ak, ops) => {
                 let mut j = obj! {"k" => s("agg")};
                 match &**ak {
@@ -924,6 +938,9 @@ impl rustc_driver::Callbacks for Cb {
                             if matches!(tcx.def_kind(parent), DefKind::Impl { .. }) {
                                 let self_ty = tcx.type_of(parent).instantiate_identity().skip_norm_wip();
                                 b.push("impl_self", s(cx.ty_s(self_ty)));
+                                if tcx.is_automatically_derived(parent) {
+                                    b.push("derived", J::B(true));
+                                }
                                 if let Some(tr) = tcx.impl_opt_trait_ref(parent) {
                                     let tr = tr.instantiate_identity().skip_norm_wip();
                                     b.push("impl_trait", s(cx.key(tr.def_id)));
